@@ -117,7 +117,8 @@ SPECS["C01"] = dict(
     assumptions=["inputs beyond 2 deviations from the seed corpus are not covered", "hang detection uses a 10 s no-progress watchdog confirmed by 5 re-runs"],
     parts=[dict(name="decoder", pkg="internal/dnsmsg", run="TestVerifC01Decoder", engines=("choice", "report", "refdns"),
                 files=dict(DNSMSG_COMMON, **{"harness/dnsmsg/zz_verif_c01_test.go": "internal/dnsmsg/zz_verif_c01_test.go"}),
-                params={"quick": {"CLASSLEN": 5, "PAIRS": 0}, "thorough": {"CLASSLEN": 6, "PAIRS": 1}})],
+                params={"quick": {"CLASSLEN": 5, "PAIRS": 0}, "thorough": {"CLASSLEN": 6, "PAIRS": 1}}),
+           router_part("listeners", "TestVerifC01Listeners", ["zz_verif_c01_test.go", "zz_verif_c03_test.go"], shards=1, gomaxprocs=8, budget={"quick": 300, "thorough": 300})],
 )
 
 
